@@ -77,6 +77,10 @@ def dump(typ, val, tb, include_local_traceback, include_local_version):
             except AttributeError:
                 # skip this attr. see issue #108
                 continue
+            if callable(attrval):
+                # a method is not data: sent as its repr it would shadow the method on the rebuilt exception
+                # (`e.add_note("x")` -> 'str' object is not callable) and disclose an address of this process
+                continue
             if not brine.dumpable(attrval):
                 attrval = repr(attrval)
             attrs.append((name, attrval))
